@@ -397,6 +397,9 @@ func (c *FnCtx) assignTo(st *State, l ast.Expr, v *Val) {
 			return
 		}
 		v = c.nilTo(v, obj.Type())
+		if _, isIface := obj.Type().Underlying().(*types.Interface); isIface && v != nil && v.S != SInt && v.S != SNone {
+			v = c.box(v) // a scalar / string stored in an interface variable
+		}
 		if cur, ok := st.vars[obj]; ok && cur.S == SNone && cur.Box != "" {
 			owner, path := splitOwner(cur.T)
 			c.storeStruct(st, cur.Box, owner, path, cur.Typ, v)
